@@ -27,14 +27,14 @@ func init() {
 		Assumptions: []string{
 			"'withheld only while X' is judged as: not X => delivered (OnNewConfig, OnWatchedError incl. source errors); X => OnNewConfig and source-reported errors withheld; a stacking/verification-failure OnWatchedError while X holds is recorded, not judged",
 		},
-		MinDistinct: map[string]int{"quick": 150, "thorough": 3000},
+		MinDistinct: map[string]int{"quick": 800, "thorough": 60000},
 		MinCounters: map[string]map[string]int64{
 			"quick":    {"walks_judged": 300, "enable_calls_judged": 400, "global_deliveries_compared": 800, "withheld_states_observed": 100, "linearizable_histories": 40},
-			"thorough": {"walks_judged": 15000, "enable_calls_judged": 20000},
+			"thorough": {"walks_judged": 200000, "enable_calls_judged": 300000},
 		},
 		Plan: func(tier string) fw.Plan {
 			if tier == "thorough" {
-				return fw.Plan{Shards: 16, CasesPerShard: 1500, TimeoutSec: 3000}
+				return fw.Plan{Shards: 16, CasesPerShard: 25000, TimeoutSec: 3000}
 			}
 			return fw.Plan{Shards: 8, CasesPerShard: 300, TimeoutSec: 900}
 		},
